@@ -86,6 +86,20 @@ macro_rules! proof_decl {
             $body(&mut s);
         }
     };
+    // S1 + S2 + S6 (legality filter = abstract predicate)
+    (s126, $name:ident, $unwind:expr, $body:expr) => {
+        #[cfg(kani)]
+        #[kani::proof]
+        #[kani::unwind($unwind)]
+        #[kani::stub(owlchess::attack::rook, $crate::stubs::rook_stub)]
+        #[kani::stub(owlchess::attack::bishop, $crate::stubs::bishop_stub)]
+        #[kani::stub(owlchess::board::RawBoard::zobrist_hash, $crate::stubs::hash_stub)]
+        #[kani::stub(owlchess::legal::Checker::is_legal, $crate::s6::is_legal_abs)]
+        fn $name() {
+            let mut s = $crate::src::KSrc;
+            $body(&mut s);
+        }
+    };
     // S1 + S2 + S3 (has_legal_moves = harness-owned bool)
     (s123, $name:ident, $unwind:expr, $body:expr) => {
         #[cfg(kani)]
